@@ -225,6 +225,30 @@ class Draw:
         return self.v
 
 
+def raised_by_implementation(exc):
+    """True when the innermost frame of the exception lies in $NASIM_REPO/nasim (the implementation
+    raised on an input the harness considers valid) rather than in the harness itself"""
+    import traceback
+    tb = traceback.extract_tb(exc.__traceback__)
+    root = os.path.realpath(os.path.join(REPO, "nasim"))
+    for fr in reversed(tb):
+        fn = os.path.realpath(fr.filename)
+        if fn.startswith(root):
+            return True
+        if fn.startswith(os.path.realpath(VERIF)):
+            # harness frame reached first only if no implementation frame lies deeper
+            return False
+    return False
+
+
+def impl_exception_finding(exc, where, replay):
+    import traceback
+    tb = "".join(traceback.format_exception(type(exc), exc, exc.__traceback__))[-1500:]
+    return dict(property="C10", kind="failing-input",
+                what=f"the implementation raised {type(exc).__name__} on a valid input ({where}): {str(exc)[:120]}",
+                replay=dict(replay, kind="impl-exception", traceback=tb))
+
+
 def repo_digest():
     """sha256 over every file under $NASIM_REPO/nasim (content), so caches follow the tree"""
     h = hashlib.sha256()
